@@ -342,6 +342,8 @@ def sat_sub(eng, st, a, b):
 
 def run_c05(ctx, chk):
     chk.assume('A-DIM', 'A-ARG', 'A-PUB', 'A-TOOL')
+    from .rules_c03 import param_fidelity
+    param_fidelity(ctx, chk)      # through the parser the numbers arrive as typed (R-CAP)
     sr = ctx.screen_run()
     eng = sr['engine']
     prog = ctx.prog
@@ -399,6 +401,8 @@ def run_c05(ctx, chk):
 # ===========================================================================
 def run_c13(ctx, chk):
     chk.assume('A-DIM', 'A-ARG', 'A-PUB', 'A-TOOL')
+    from .rules_c03 import param_fidelity
+    param_fidelity(ctx, chk)      # through the parser the numbers arrive as typed (R-CAP)
     for m in ('insert_characters', 'delete_characters'):
         g.frame(ctx, chk, m, ['buffer', 'dirty'])
     n = g.r_zero1(ctx, chk, [('insert_characters', 0), ('delete_characters', 0)])
@@ -511,6 +515,8 @@ def blank_provenance(ctx, chk, meths, want, rule='R-BLANK'):
 # ===========================================================================
 def run_c07(ctx, chk):
     chk.assume('A-DIM', 'A-ARG', 'A-PUB', 'A-TOOL')
+    from .rules_c03 import param_fidelity
+    param_fidelity(ctx, chk)      # through the parser the numbers arrive as typed (R-CAP)
     sr = ctx.screen_run()
     eng = sr['engine']
     prog = ctx.prog
@@ -770,6 +776,8 @@ def erase_region_ok(eng, st, meth, hv, row, col, x0, y0, cols, a0):
 # ===========================================================================
 def run_c06(ctx, chk):
     chk.assume('A-DIM', 'A-ARG', 'A-PUB', 'A-TOOL')
+    from .rules_c03 import param_fidelity
+    param_fidelity(ctx, chk)      # through the parser the numbers arrive as typed (R-CAP)
     sr = ctx.screen_run()
     eng = sr['engine']
     prog = ctx.prog
